@@ -99,11 +99,11 @@ def _local_window(cy, cx, center, dx, samples_per_seg, x, y):
     if isinstance(samples_per_seg, int):
         samples_per_seg = (samples_per_seg, samples_per_seg)
 
-    offset_x = cx + int(center[0]/dx) - samples_per_seg[0]
-    offset_y = cy + int(center[1]/dx) - samples_per_seg[1]
+    offset_x = cx + math.floor(center[0]/dx) - samples_per_seg[0]
+    offset_y = cy + math.floor(center[1]/dx) - samples_per_seg[1]
 
-    upper_x = offset_x + (2*samples_per_seg[0])
-    upper_y = offset_y + (2*samples_per_seg[1])
+    upper_x = cx + math.ceil(center[0]/dx) + samples_per_seg[0] + 1
+    upper_y = cy + math.ceil(center[1]/dx) + samples_per_seg[1] + 1
 
     # clamp the offsets
     if offset_x < 0:
